@@ -214,6 +214,16 @@ func c09(c *Ctx) {
 	t.opcodeAgrees()
 	t.stickyWrite()
 	t.earlyCheck()
+
+	// a writer opened before the close must fail no later than its Close: errors of the final flush reach the caller
+	r.Rule("C09.close-error-propagates", "the error of the final flush (ErrCloseSent after a close frame) reaches the result of messageWriter.Close and of the compression wrapper's Close on every path (no dropped error)")
+	endMsg := c.fn("(*messageWriter).endMessage")
+	sel := func(ev *core.Event) bool { return ev.Static != t.writeFatal && ev.Static != endMsg }
+	n := 0
+	for _, name := range []string{"(*messageWriter).Close", "(*messageWriter).flushFrame", "(*flateWriteWrapper).Close", "(*Conn).WriteMessage", "(*Conn).WriteJSON", "(*Conn).WritePreparedMessage"} {
+		n += c.errMustPropagate("C09.close-error-propagates", c.fn(name), sel, core.Opts{Unroll: 0, Pure: c.pureSet("isControl", "isData")})
+	}
+	r.Floor("C09.close-error-propagates", 8)
 }
 
 // checkSection verifies the critical-section protocol in fn.
